@@ -75,7 +75,7 @@ pub fn event(id: usize, c: &ConeSpec, s: &[f64], z: &[f64], ds: &[f64], dz: &[f6
             }
         }
         let hn = fro(&b0.h_dual);
-        if fd_ok {
+        if fd_ok && family != "near_boundary_dual" {
             put("grad_is_derivative", dist(&b0.grad_dual, &gfd), 1e-5 * (norm(&b0.grad_dual) + 1.0 / zs));
             let mut e2 = 0.0; for i in 0..n { for j in 0..n { e2 += (b0.h_dual[i][j] - hfd[i][j]).powi(2); } }
             put("hessian_is_derivative", e2.sqrt(), 1e-5 * hn);
@@ -83,9 +83,12 @@ pub fn event(id: usize, c: &ConeSpec, s: &[f64], z: &[f64], ds: &[f64], dz: &[f6
         let mut asym = 0.0f64; for i in 0..n { for j in 0..n { asym = asym.max((b0.h_dual[i][j] - b0.h_dual[j][i]).abs()); } }
         put("hessian_symmetric", asym, 1e-12 * hn);
         // logarithmic homogeneity of a nu-barrier: <g(z), z> = -nu,  H(z) z = -g(z)
-        put("grad_dot_z", (dot(&b0.grad_dual, z) + degree).abs(), 1e-9 * degree);
+        // (rounding in zeta = (dual cone's defining difference) is amplified by 1 / (relative distance of z to the boundary))
+        let zm = observer::margin(c, z, true).max(1e-12);
+        let alg = 1e-9 + 1e-13 / zm;
+        put("grad_dot_z", (dot(&b0.grad_dual, z) + degree).abs(), alg * degree);
         let hz = matvec(&b0.h_dual, z);
-        put("hess_z_is_minus_grad", dist(&hz, &b0.grad_dual.iter().map(|v| -v).collect::<Vec<_>>()), 1e-9 * norm(&b0.grad_dual));
+        put("hess_z_is_minus_grad", dist(&hz, &b0.grad_dual.iter().map(|v| -v).collect::<Vec<_>>()), alg * norm(&b0.grad_dual));
         {
             // primal gradient: derivative of the primal barrier, and the conjugate map  g*(-g(s)) = -s
             let ss = norm(s);
@@ -115,7 +118,7 @@ pub fn event(id: usize, c: &ConeSpec, s: &[f64], z: &[f64], ds: &[f64], dz: &[f6
             let hd = 1e-5 * zs / norm(dz).max(1e-300);
             let (zp, zm): (Vec<f64>, Vec<f64>) = ((0..n).map(|i| z[i] + hd * dz[i]).collect(), (0..n).map(|i| z[i] - hd * dz[i]).collect());
             if let (Some(p), Some(m)) = (bat(c, s, &zp, ds, dz, mu), bat(c, s, &zm, ds, dz, mu)) {
-                if p.dual_feasible && m.dual_feasible && !p.h_dual.is_empty() && !m.h_dual.is_empty() {
+                if p.dual_feasible && m.dual_feasible && !p.h_dual.is_empty() && !m.h_dual.is_empty() && family != "near_boundary_dual" {
                     let u = solve(&b0.h_dual, ds);
                     let t: Vec<f64> = (0..n).map(|i| (0..n).map(|j| (p.h_dual[i][j] - m.h_dual[i][j]) / (2.0 * hd) * u[j]).sum::<f64>()).collect();
                     let want: Vec<f64> = t.iter().map(|v| 0.5 * v).collect();
@@ -251,6 +254,22 @@ pub fn record(seed: u64, count: usize) -> (Vec<Value>, Value) {
                 _ => {}
             }
             family = "near_boundary";
+        }
+        if id % 16 == 6 {
+            // z at relative distance 1e-2 .. 1e-7 from the boundary of K*: the algebraic laws of the dual barrier still hold there
+            let rel = 10f64.powf(gen::unif(&mut rng, -7.0, -2.0));
+            match &c {
+                ConeSpec::Exp => { let lim = -z[0] * (z[1] / z[0]).exp() / std::f64::consts::E; z[2] = lim * (1.0 + rel); }
+                ConeSpec::Pow(al) => { let lim = (z[0] / al).powf(*al) * (z[1] / (1.0 - al)).powf(1.0 - al); z[2] = if z[2] < 0.0 { -lim * (1.0 - rel) } else { lim * (1.0 - rel) }; }
+                ConeSpec::GenPow(al, _) => {
+                    let k = al.len();
+                    let lim: f64 = (0..k).map(|i| (z[i] / al[i]).powf(al[i])).product();
+                    let nw = norm(&z[k..]).max(1e-300);
+                    for i in k..n { z[i] *= lim * (1.0 - rel) / nw; }
+                }
+                _ => {}
+            }
+            family = "near_boundary_dual";
         }
         let a = if family == "central" { norm(&s) } else { a };
         let ds: Vec<f64> = (0..n).map(|_| gen::normal(&mut rng) * 0.3 * a).collect();
